@@ -18,6 +18,7 @@ func init() {
 			{Rule: "ERRUSED", Bad: "canaryBadDroppedAtoi", Good: "canaryGoodCheckedAtoi"},
 			{Rule: "GUARD", Bad: "canaryBadZoomGuard", Good: "canaryGoodZoomGuard"},
 			{Rule: "PARSE-BASE", Bad: "canaryBadBase0", Good: "canaryGoodCheckedAtoi"},
+			{Rule: "ERRSWALLOW", Bad: "canaryBadSwallowErr", Good: "canaryGoodReportErr"},
 		}})
 	register(&propSpec{ID: "C16", Level: "other", Run: runC16,
 		Explain: otherNote + "C16: decided = no exported function writes memory reachable from its arguments; no result depends on the position of an element in a map-ordered slice; bodies of map-range loops are commutative; documented de-duplication happens on every success path; no other nondeterminism source is reachable. Invariance of the result set under permutation/duplication of the input list in general is NOT decided.",
@@ -42,6 +43,7 @@ func runC14(w *World, r *Report, tier string) {
 	}
 	kr := kindRulesFor(w)
 	kr.emit(w, r, []string{"KIND-CALL", "KIND-LAYOUT"}, own)
+	kr.emit(w, r, []string{"REM-SIGN"}, closureOf(w, entries))
 	ruleCorridor(w, r)
 	ruleNoOrderDep(w, r, own)
 	if f := lookupByName(w, "transform.GetExtendedSpatialIdsWithinRadiusOfLine"); f != nil {
@@ -54,6 +56,7 @@ func runC15(w *World, r *Report, tier string) {
 	unresolvedSeeds(w, r)
 	guardRows(w, r, "C15")
 	ruleErrUsed(w, r, nil)
+	ruleErrSwallow(w, r, nil)
 	rulePointFields(w, r)
 	for _, n := range []string{"detector.CheckSpatialIdsArrayOverlap", "detector.CheckExtendedSpatialIdsOverlap", "detector.CheckExtendedSpatialIdsArrayOverlap",
 		"transform.ConvertTileXYZsToExtendedSpatialIDs", "transform.ConvertTileXYZsToSpatialIDs"} {
